@@ -319,7 +319,17 @@ def gen_config18(rng, idx=0):
         modes.append({'name': names[k], 'patterns': pats, 'transitions': []})
     if rng.random() < 0.5:
         gen.add_transitions(rng, modes)
-    return {'modes': modes, 'prefix': rng.choice(PREFIXES)}
+    c = {'modes': modes, 'prefix': rng.choice(PREFIXES)}
+    if rng.random() < 0.3:
+        # the folder already holds the export of a LARGER configuration with the same prefix and mode names
+        big = json.loads(json.dumps(modes))
+        for m in big:
+            used = set(p['t'] for p in m['patterns'])
+            extra = [t for t in range(200, 230) if t not in used]
+            for k in range(rng.randint(2, 5)):
+                m['patterns'].append({'p': 'zq%d[a-m]+(x|yy)*' % k, 't': extra[k], 'la': {'pos': k % 2 == 0, 'p': 'w%d+' % k}})
+        c['first'] = big
+    return c
 
 
 def handmade():
@@ -648,6 +658,9 @@ class C18:
             fjobs = self.fault_jobs(rng)
         nk = len(known)
         jobs = [{'id': i, 'kind': 'dot_export', 'modes': c['modes'], 'prefix': c.get('prefix', 'P')} for i, c in enumerate(cases)]
+        for j, c in zip(jobs, cases):
+            if c.get('first'):
+                j['first'] = c['first']
         results = run_harness(jobs, rdir, 'export', timeout=3000) if jobs else []
         verdicts, coqf, st = self.check_exports(cases, results, rdir)
         for p, o in coqf:
@@ -663,7 +676,7 @@ class C18:
                     known_hit.add(i)
                     continue
                 out.violations.append({'property': self.ID, 'what': v['violations'][0], 'all': v['violations'],
-                                       'case': {'modes': c['modes'], 'prefix': c.get('prefix', 'P')},
+                                       'case': dict({'modes': c['modes'], 'prefix': c.get('prefix', 'P')}, **({'first': c['first']} if c.get('first') else {})),
                                        'files': {fn: t for fn, t in v['files'].items()},
                                        'dump': r.get('dump')})
             for b in v['broken']:
